@@ -106,9 +106,13 @@ type gExec struct {
 // execG runs program p once. sched decides mask/strategy from ch.
 func execG(t *testing.T, ch *vs.Choices, p *gProg, dir string, keepLog bool, parkMode string, allowStrategies []string) *gExec {
 	x := &gExec{reach: map[string]int{}}
-	if err := os.WriteFile(filepath.Join(dir, "Taskfile.yml"), []byte(p.YAML()), 0o644); err != nil {
-		x.setupErr = err
-		return x
+	for name, content := range p.Files() {
+		full := filepath.Join(dir, name)
+		_ = os.MkdirAll(filepath.Dir(full), 0o755)
+		if err := os.WriteFile(full, []byte(content), 0o644); err != nil {
+			x.setupErr = err
+			return x
+		}
 	}
 	stdinPath := filepath.Join(dir, ".stdin")
 	_ = os.WriteFile(stdinPath, nil, 0o644)
@@ -198,7 +202,7 @@ func execG(t *testing.T, ch *vs.Choices, p *gProg, dir string, keepLog bool, par
 					if r.HasV {
 						v.Set("V", ast.Var{Value: r.V})
 					}
-					calls = append(calls, &task.Call{Task: p.Tasks[r.Target].Name, Vars: v})
+					calls = append(calls, &task.Call{Task: p.refName(-1, r.Target), Vars: v})
 				}
 				x.err = e.Run(ctx, calls...)
 			})
@@ -346,7 +350,7 @@ func runG(t *testing.T, ch *vs.Choices, prop, tier string, render bool) *vs.RunO
 	}
 	finished := x.outcome == vs.Finished
 	code, class := mapExit(x.err, p.ExitCodeFlag)
-	verdicts := m.check(x.evs, p.Conc, finished, x.err == nil, class, code, x.cancelFired)
+	verdicts := m.check(x.evs, p.Conc, finished, x.err == nil, class, code, x.cancelFired, x.outcome == vs.Deadlock)
 	switch x.outcome {
 	case vs.Deadlock:
 		verdicts = append(verdicts, gVerdict{"C07", "deadlock|" + deadlockSig(x.blocked), fmt.Sprintf("no goroutine can run and Run has not returned: %v", x.blocked)})
@@ -444,7 +448,7 @@ func runG(t *testing.T, ch *vs.Choices, prop, tier string, render bool) *vs.RunO
 	gReach(out, p, m, x, prop)
 	if render {
 		out.Rendered = map[string]any{
-			"files":    map[string]string{"Taskfile.yml": yaml},
+			"files":    p.Files(),
 			"config":   p.Config(),
 			"strategy": x.strategy,
 			"outcome":  x.outcome.String(),
@@ -500,6 +504,9 @@ func deadlockSig(blocked []string) string {
 	for _, b := range blocked {
 		if i := strings.IndexByte(b, ' '); i >= 0 {
 			b = b[i+1:]
+		}
+		if i := strings.LastIndexByte(b, ':'); i >= 0 {
+			b = b[:i] // no line numbers in signatures
 		}
 		set[b] = true
 	}
